@@ -202,3 +202,31 @@ def foreign(rng, base):
 
 def systematic_truncations(base):
     return [("truncate-block", base[:k]) for k in range(0, len(base), BLOCK)]
+
+
+def boundary_counts():
+    """hand-made one-dimensional files around the validity boundary nknots = 2*order+2, naxes = nknots-order-1"""
+    out = []
+    prim = lambda na, o: {"cards": [card("SIMPLE", "T"), card("BITPIX", "-32"), card("NAXIS", "1"), card("NAXIS1", str(na)), card("EXTEND", "T"), card("ORDER0", str(o))],
+                          "data": struct.pack(">%df" % na, *[float(i) for i in range(na)])}
+    for o in range(6):
+        for nk in (2 * o, 2 * o + 1, 2 * o + 2, 2 * o + 3):
+            for d in (-1, 0, 1):
+                na = nk - o - 1 + d
+                if nk < 1 or na < 0: continue
+                out.append(("boundary-counts", serialise([prim(na, o), img_ext("KNOTS0", [float(i) for i in range(nk)])])))
+    return out
+
+
+def card_bitflips():
+    """every single-bit flip of the ORDER0 card, of a string card and of the EXTNAME card of a small valid file"""
+    prim = {"cards": [card("SIMPLE", "T"), card("BITPIX", "-32"), card("NAXIS", "1"), card("NAXIS1", "2"), card("EXTEND", "T"),
+                      card("ORDER0", "0", "B-Spline Order"), card("ABC", "'hello   '")], "data": struct.pack(">2f", 1, 2)}
+    base = serialise([prim, img_ext("KNOTS0", [0.0, 1.0, 2.0])])
+    offs = [5 * 80, 6 * 80, base.index(b"EXTNAME")]
+    out = []
+    for o in offs:
+        for byte in range(80):
+            for bit in range(8):
+                b = bytearray(base); b[o + byte] ^= 1 << bit; out.append(("card-bitflip", bytes(b)))
+    return out
